@@ -230,3 +230,266 @@ func VerifParseOfEncoding(d []byte, o Options, defs map[OptionID]OptionDef) {
 
 // VerifHeaderParse is a ghost lemma (see the contract above); it has no effect.
 func VerifHeaderParse(d []byte, p int, dl int, l int) {}
+
+// ---- C15: option list as a sorted multiset -------------------------------------------------------
+//
+// findPosition returns the open interval around the run of options with the given ID:
+// minIdx = index of the last option with a smaller ID (-1 if none), maxIdx = index of the first
+// option with a larger ID (-1 if none; 0 for the empty list).
+//
+//@ func (Options) findPosition(id OptionID) (minIdx int, maxIdx int)
+//@   requires sortedOpts(options)
+//@   ensures [empty] len(options) == 0 ==> minIdx == -1 && maxIdx == 0
+//@   ensures [range] -1 <= minIdx && minIdx < max(len(options), 1) && -1 <= maxIdx && maxIdx < max(len(options), 1)
+//@   ensures [smaller] forall i int :: {options[i].ID} 0 <= i && i < len(options) ==> ((i <= minIdx) <==> options[i].ID < id)
+//@   ensures [larger] forall i int :: {options[i].ID} 0 <= i && i < len(options) ==> ((maxIdx >= 0 && i >= maxIdx) <==> options[i].ID > id)
+//@   loop 0:
+//@     invariant len(options) > 0 && 0 <= minIdx && minIdx <= pivot && pivot <= maxIdx && maxIdx <= len(options) && pivot < len(options)
+//@     invariant (pivot == 0 && minIdx == 0) || options[minIdx].ID < id
+//@     invariant maxIdx == len(options) || options[maxIdx].ID > id
+//@     invariant (maxIdx - minIdx) / 2 >= 1 ==> pivot < maxIdx
+//@     decreases 2 * (maxIdx - minIdx) + ite(pivot == minIdx, 1, 0)
+//@   loop 1:
+//@     invariant pivot <= maxIdx && maxIdx <= len(options)
+//@     invariant forall i int :: {options[i].ID} pivot <= i && i < maxIdx ==> options[i].ID <= id
+//@     invariant id == options[pivot].ID || pivot + 1 >= len(options) || options[pivot + 1].ID > id || options[pivot].ID > id
+//@     decreases len(options) - maxIdx
+//@   loop 2:
+//@     invariant -1 <= minIdx && minIdx <= pivot
+//@     invariant forall i int :: {options[i].ID} minIdx < i && i <= pivot ==> options[i].ID >= id
+//@     decreases minIdx + 1
+//
+// Find: [first, last) is exactly the run of options with that ID.
+//
+//@ func (Options) Find(id OptionID) (first int, last int, err error)
+//@   requires sortedOpts(options)
+//@   ensures [found] err == nil ==> 0 <= first && first < last && last <= len(options) && options[first].ID == id
+//@   ensures [not-found] err != nil ==> forall i int :: {options[i].ID} 0 <= i && i < len(options) ==> options[i].ID != id
+//@   ensures [err-kind] err != nil ==> err == ErrOptionNotFound && first == -1 && last == -1
+//@   ensures [run] err == nil ==> 0 <= first && first < last && last <= len(options) && (forall i int :: {options[i].ID} 0 <= i && i < len(options) ==> ((first <= i && i < last) <==> options[i].ID == id))
+//
+// Remove: the options with that ID disappear, everything else keeps its order (in place).
+//
+//@ spec countLess(o Options, id int, n int) bool = 0 <= n && n <= len(o) && (forall i int :: {o[i].ID} 0 <= i && i < len(o) ==> ((i < n) <==> o[i].ID < id))
+//
+//@ func (Options) Remove(id OptionID) (r Options)
+//@   requires sortedOpts(options)
+//@   modifies options[0 : len(options)]
+//@   ensures [same-array] r[0:0] == options[0:0] && cap(r) == cap(options) && len(r) <= len(options)
+//@   witness f = idxPre
+//@   witness l = idxPost
+//@   ensures [absent] (forall i int :: {options[i].ID} 0 <= i && i < len(options) ==> old(options[i].ID) != id) ==> r == options && (forall i int :: {r[i].ID} 0 <= i && i < len(options) ==> r[i] == old(options[i]))
+//@   ensures [model] (exists i int :: {options[i].ID} 0 <= i && i < len(options) && old(options[i].ID) == id) ==> 0 <= f && f < l && l <= len(options) && len(r) == len(options) - (l - f) && (forall i int :: {old(options[i].ID)} 0 <= i && i < len(options) ==> ((f <= i && i < l) <==> old(options[i].ID) == id)) && (forall i int :: {r[i].ID} 0 <= i && i < f ==> r[i] == old(options[i])) && (forall i int :: {r[i].ID} f <= i && i < len(r) ==> r[i] == old(options[i + (l - f)]))
+//@   loop 0:
+//@     modifies options[0 : len(options)]
+//@     invariant idxPost <= i && i <= len(options) && updateIdx == idxPre + (i - idxPost)
+//@     invariant forall k int :: {options[k].ID} 0 <= k && k < idxPre ==> options[k] == old(options[k])
+//@     invariant forall k int :: {options[k].ID} idxPre <= k && k < updateIdx ==> options[k] == old(options[k + (idxPost - idxPre)])
+//@     invariant forall k int :: {options[k].ID} updateIdx <= k && k < len(options) ==> options[k] == old(options[k])
+//@     decreases len(options) - i
+//
+// Add: the new option goes after every option whose ID is <= its ID (insertion order among equals);
+// everything else keeps its order. In place when there is spare capacity, otherwise in a fresh array.
+//
+//@ func (Options) Add(opt Option) (r Options)
+//@   requires sortedOpts(options) && len(options) < 281474976710655
+//@   modifies options[0 : cap(options)]
+//@   witness p = idxPost
+//@   ensures [len] len(r) == len(options) + 1 && 0 <= p && p <= len(options)
+//@   ensures [array] (len(options) < cap(options) ==> r[0:0] == options[0:0] && cap(r) == cap(options)) && (len(options) == cap(options) ==> fresh(r))
+//@   ensures [position] forall i int :: {old(options[i].ID)} 0 <= i && i < len(options) ==> ((i < p) <==> old(options[i].ID) <= opt.ID)
+//@   ensures [position-next] p < len(options) ==> old(options[p].ID) > opt.ID
+//@   ensures [position-prev] p > 0 ==> old(options[p - 1].ID) <= opt.ID
+//@   ensures [before] forall i int :: {r[i].ID} 0 <= i && i < p ==> r[i] == old(options[i])
+//@   ensures [inserted] r[p] == opt
+//@   ensures [after] forall i int :: {r[i].ID} p < i && i < len(r) ==> r[i] == old(options[i - 1])
+//@   loop 0:
+//@     modifies options[0 : len(options)]
+//@     invariant 0 <= idxPost && idxPost <= i && i == len(options) - 1 - #iter && len(options) == len(old(options)) + 1
+//@     invariant forall k int :: {options[k].ID} 0 <= k && k <= i && k < len(old(options)) ==> options[k] == old(options[k])
+//@     invariant forall k int :: {options[k].ID} i < k && k < len(options) ==> options[k] == old(options[k - 1])
+//@     decreases i
+//
+// Set: all options with that ID are replaced by the single new one, in the position of the run;
+// smaller and larger options keep their order.
+//
+//@ func (Options) Set(opt Option) (r Options)
+//@   requires sortedOpts(options) && len(options) < 281474976710655
+//@   modifies options[0 : cap(options)]
+//@   witness f = idxPre + 1
+//@   witness l = ite(idxPost < 0, len(options), idxPost)
+//@   ensures [run-bounds] 0 <= f && f <= l && l <= len(options)
+//@   ensures [run-smaller] forall i int :: {old(options[i].ID)} 0 <= i && i < len(options) ==> ((i < f) <==> old(options[i].ID) < opt.ID)
+//@   ensures [run-larger] forall i int :: {old(options[i].ID)} 0 <= i && i < len(options) ==> ((i >= l) <==> old(options[i].ID) > opt.ID)
+//@   ensures [len] len(r) == f + 1 + (len(options) - l)
+//@   ensures [before] forall i int :: {r[i].ID} 0 <= i && i < f ==> r[i] == old(options[i])
+//@   ensures [set] r[f] == opt
+//@   ensures [after] forall i int :: {r[i].ID} f < i && i < len(r) ==> r[i] == old(options[i - f - 1 + l])
+//@   ensures [array] (len(r) <= cap(options) ==> r[0:0] == options[0:0]) || fresh(r)
+//@   loop 0:
+//@     modifies options[0 : len(options)]
+//@     invariant updateFrom <= i && i == optsLength - #iter && updateIdx == updateTo + #iter && len(options) == optsLength + 1 && optsLength == len(old(options))
+//@     invariant forall k int :: {options[k].ID} 0 <= k && k <= i && k < optsLength ==> options[k] == old(options[k])
+//@     invariant forall k int :: {options[k].ID} i < k && k <= optsLength ==> options[k] == old(options[k - 1])
+//@     decreases i
+//@   loop 1:
+//@     modifies options[0 : len(options)]
+//@     invariant updateFrom <= i && i <= optsLength && i == updateFrom + #iter && updateIdx == updateTo + #iter && len(options) == optsLength + 1 && optsLength == len(old(options)) && updateTo <= updateFrom
+//@     invariant forall k int :: {options[k].ID} 0 <= k && k < updateTo ==> options[k] == old(options[k])
+//@     invariant forall k int :: {options[k].ID} updateTo <= k && k < updateIdx ==> options[k] == old(options[k - updateTo + updateFrom])
+//@     invariant forall k int :: {options[k].ID} updateIdx <= k && k < optsLength ==> options[k] == old(options[k])
+//@     decreases optsLength - i
+//
+// ---- uint option values: minimal-length big-endian ------------------------------------------------
+//
+//@ spec u32Len(v int) int = ite(v == 0, 0, ite(v <= 255, 1, ite(v <= 65535, 2, ite(v <= 16777215, 3, 4))))
+//@ spec beU32(b []byte, n int) int = ite(n == 0, 0, ite(n == 1, b[0], ite(n == 2, 256*b[0] + b[1], ite(n == 3, 65536*b[0] + 256*b[1] + b[2], 16777216*b[0] + 65536*b[1] + 256*b[2] + b[3]))))
+//
+//@ func EncodeUint32(buf []byte, value uint32) (n int, err error)
+//@   modifies buf[0 : min(len(buf), u32Len(value))]
+//@   ensures [size] n == u32Len(value)
+//@   ensures [fits-iff] (err == nil) <==> len(buf) >= n
+//@   ensures [err-kind] err != nil ==> err == ErrTooSmall
+//@   ensures [value] err == nil ==> beU32(buf, n) == value
+//
+//@ func DecodeUint32(buf []byte) (v uint32, n int, err error)
+//@   ensures [all] err == nil && n == min(len(buf), 4) && v == beU32(buf, n)
+//
+// ---- getters: answers consistent with the sorted-multiset view ---------------------------------
+//
+//@ func (Options) HasOption(id OptionID) (r bool)
+//@   requires sortedOpts(options)
+//@   ensures [iff] r <==> (exists i int :: {options[i].ID} 0 <= i && i < len(options) && options[i].ID == id)
+//
+//@ func (Options) GetBytes(id OptionID) (r []byte, err error)
+//@   requires sortedOpts(options)
+//@   witness p = firstIdx
+//@   ensures [found] err == nil ==> 0 <= p && p < len(options) && options[p].ID == id && (p == 0 || options[p - 1].ID < id) && r == options[p].Value
+//@   ensures [not-found] err != nil ==> err == ErrOptionNotFound && r == nil && (forall i int :: {options[i].ID} 0 <= i && i < len(options) ==> options[i].ID != id)
+//
+//@ func (Options) GetUint32(id OptionID) (v uint32, err error)
+//@   requires sortedOpts(options)
+//@   witness p = firstIdx
+//@   ensures [found] err == nil ==> 0 <= p && p < len(options) && options[p].ID == id && (p == 0 || options[p - 1].ID < id) && v == beU32(options[p].Value, min(len(options[p].Value), 4))
+//@   ensures [not-found] err != nil ==> err == ErrOptionNotFound && v == 0 && (forall i int :: {options[i].ID} 0 <= i && i < len(options) ==> options[i].ID != id)
+//
+//@ func (Options) GetBytess(id OptionID, r [][]byte) (n int, err error)
+//@   requires sortedOpts(options)
+//@   modifies r[0 : len(r)]
+//@   witness f = firstIdx
+//@   witness l = lastIdx
+//@   ensures [not-found] err == ErrOptionNotFound ==> n == 0 && (forall i int :: {options[i].ID} 0 <= i && i < len(options) ==> options[i].ID != id)
+//@   ensures [too-small] err == ErrTooSmall ==> n == l - f && len(r) < n && 0 <= f && f < l && l <= len(options)
+//@   ensures [err-kind] err != nil ==> err == ErrOptionNotFound || err == ErrTooSmall
+//@   ensures [values] err == nil ==> n == l - f && 0 <= f && f < l && l <= len(options) && (forall i int :: {options[i].ID} 0 <= i && i < len(options) ==> ((f <= i && i < l) <==> options[i].ID == id)) && (forall k int :: {r[k]} 0 <= k && k < n ==> r[k] == options[f + k].Value)
+//@   loop 0:
+//@     modifies r[0 : len(r)]
+//@     invariant firstIdx <= i && i <= lastIdx && idx == i - firstIdx && i == firstIdx + #iter
+//@     invariant forall k int :: {r[k]} 0 <= k && k < idx ==> r[k] == options[firstIdx + k].Value
+//@     decreases lastIdx - i
+//
+//@ func (Options) GetUint32s(id OptionID, r []uint32) (n int, err error)
+//@   requires sortedOpts(options)
+//@   modifies r[0 : len(r)]
+//@   witness f = firstIdx
+//@   witness l = lastIdx
+//@   ensures [not-found] err == ErrOptionNotFound ==> n == 0 && (forall i int :: {options[i].ID} 0 <= i && i < len(options) ==> options[i].ID != id)
+//@   ensures [too-small] err == ErrTooSmall ==> n == l - f && len(r) < n
+//@   ensures [err-kind] err != nil ==> err == ErrOptionNotFound || err == ErrTooSmall
+//@   ensures [values] err == nil ==> n == l - f && 0 <= f && f < l && l <= len(options) && (forall k int :: {r[k]} 0 <= k && k < n ==> r[k] == beU32(options[f + k].Value, min(len(options[f + k].Value), 4)))
+//@   loop 0:
+//@     modifies r[0 : len(r)]
+//@     invariant firstIdx <= i && i <= lastIdx && idx == i - firstIdx && i == firstIdx + #iter
+//@     invariant forall k int :: {r[k]} 0 <= k && k < idx ==> r[k] == beU32(options[firstIdx + k].Value, min(len(options[firstIdx + k].Value), 4))
+//@     decreases lastIdx - i
+//
+// ---- typed setters: the value is copied into the caller's buffer, the list edited by Set/Add ------
+//
+//@ func (Options) SetBytes(buf []byte, id OptionID, data []byte) (r Options, n int, err error)
+//@   requires sortedOpts(options) && len(options) < 281474976710655
+//@   modifies buf[0 : min(len(buf), len(data))], options[0 : cap(options)]
+//@   witness f = Set.f
+//@   witness l = Set.l
+//@   ensures [too-small] len(buf) < len(data) ==> err == ErrTooSmall && n == len(data) && r == options
+//@   ensures [too-long] len(buf) >= len(data) && id == 11 && len(data) > 255 ==> err == ErrInvalidValueLength && n == -1 && r == options
+//@   ensures [unchanged-on-error] err != nil ==> (forall i int :: {r[i].ID} 0 <= i && i < len(options) ==> r[i] == old(options[i])) && bytesEqOld(buf, buf)
+//@   ensures [ok] len(buf) >= len(data) && !(id == 11 && len(data) > 255) ==> err == nil && n == len(data) && bytesEqOld(buf[0 : n], data)
+//@   ensures [run-bounds] err == nil ==> 0 <= f && f <= l && l <= len(options)
+//@   ensures [run-smaller] err == nil ==> forall i int :: {old(options[i].ID)} 0 <= i && i < len(options) ==> ((i < f) <==> old(options[i].ID) < id)
+//@   ensures [run-larger] err == nil ==> forall i int :: {old(options[i].ID)} 0 <= i && i < len(options) ==> ((i >= l) <==> old(options[i].ID) > id)
+//@   ensures [len] err == nil ==> len(r) == f + 1 + (len(options) - l)
+//@   ensures [before] err == nil ==> forall i int :: {r[i].ID} 0 <= i && i < f ==> r[i] == old(options[i])
+//@   ensures [set] err == nil ==> r[f].ID == id && r[f].Value == buf[0 : len(data)]
+//@   ensures [after] err == nil ==> forall i int :: {r[i].ID} f < i && i < len(r) ==> r[i] == old(options[i - f - 1 + l])
+//
+//@ func (Options) AddBytes(buf []byte, id OptionID, data []byte) (r Options, n int, err error)
+//@   requires sortedOpts(options) && len(options) < 281474976710655
+//@   modifies buf[0 : min(len(buf), len(data))], options[0 : cap(options)]
+//@   witness p = Add.p
+//@   ensures [too-small] len(buf) < len(data) ==> err == ErrTooSmall && n == len(data) && r == options
+//@   ensures [too-long] len(buf) >= len(data) && id == 11 && len(data) > 255 ==> err == ErrInvalidValueLength && n == -1 && r == options
+//@   ensures [unchanged-on-error] err != nil ==> (forall i int :: {r[i].ID} 0 <= i && i < len(options) ==> r[i] == old(options[i])) && bytesEqOld(buf, buf)
+//@   ensures [ok] len(buf) >= len(data) && !(id == 11 && len(data) > 255) ==> err == nil && n == len(data) && bytesEqOld(buf[0 : n], data)
+//@   ensures [len] err == nil ==> len(r) == len(options) + 1 && 0 <= p && p <= len(options)
+//@   ensures [position] err == nil ==> forall i int :: {old(options[i].ID)} 0 <= i && i < len(options) ==> ((i < p) <==> old(options[i].ID) <= id)
+//@   ensures [before] err == nil ==> forall i int :: {r[i].ID} 0 <= i && i < p ==> r[i] == old(options[i])
+//@   ensures [inserted] err == nil ==> r[p].ID == id && r[p].Value == buf[0 : len(data)]
+//@   ensures [after] err == nil ==> forall i int :: {r[i].ID} p < i && i < len(r) ==> r[i] == old(options[i - 1])
+//
+//@ func (Options) SetUint32(buf []byte, id OptionID, value uint32) (r Options, n int, err error)
+//@   requires sortedOpts(options) && len(options) < 281474976710655
+//@   modifies buf[0 : min(len(buf), u32Len(value))], options[0 : cap(options)]
+//@   witness f = Set.f
+//@   witness l = Set.l
+//@   ensures [too-small] len(buf) < u32Len(value) ==> err == ErrTooSmall && n == u32Len(value) && r == options && (forall i int :: {r[i].ID} 0 <= i && i < len(options) ==> r[i] == old(options[i]))
+//@   ensures [ok] len(buf) >= u32Len(value) ==> err == nil && n == u32Len(value) && beU32(buf, n) == value
+//@   ensures [run-bounds] err == nil ==> 0 <= f && f <= l && l <= len(options)
+//@   ensures [run-smaller] err == nil ==> forall i int :: {old(options[i].ID)} 0 <= i && i < len(options) ==> ((i < f) <==> old(options[i].ID) < id)
+//@   ensures [run-larger] err == nil ==> forall i int :: {old(options[i].ID)} 0 <= i && i < len(options) ==> ((i >= l) <==> old(options[i].ID) > id)
+//@   ensures [len] err == nil ==> len(r) == f + 1 + (len(options) - l)
+//@   ensures [before] err == nil ==> forall i int :: {r[i].ID} 0 <= i && i < f ==> r[i] == old(options[i])
+//@   ensures [set] err == nil ==> r[f].ID == id && r[f].Value == buf[0 : n]
+//@   ensures [after] err == nil ==> forall i int :: {r[i].ID} f < i && i < len(r) ==> r[i] == old(options[i - f - 1 + l])
+//
+//@ func (Options) AddUint32(buf []byte, id OptionID, value uint32) (r Options, n int, err error)
+//@   requires sortedOpts(options) && len(options) < 281474976710655
+//@   modifies buf[0 : min(len(buf), u32Len(value))], options[0 : cap(options)]
+//@   witness p = Add.p
+//@   ensures [too-small] len(buf) < u32Len(value) ==> err == ErrTooSmall && n == u32Len(value) && r == options && (forall i int :: {r[i].ID} 0 <= i && i < len(options) ==> r[i] == old(options[i]))
+//@   ensures [ok] len(buf) >= u32Len(value) ==> err == nil && n == u32Len(value) && beU32(buf, n) == value
+//@   ensures [len] err == nil ==> len(r) == len(options) + 1 && 0 <= p && p <= len(options)
+//@   ensures [position] err == nil ==> forall i int :: {old(options[i].ID)} 0 <= i && i < len(options) ==> ((i < p) <==> old(options[i].ID) <= id)
+//@   ensures [before] err == nil ==> forall i int :: {r[i].ID} 0 <= i && i < p ==> r[i] == old(options[i])
+//@   ensures [inserted] err == nil ==> r[p].ID == id && r[p].Value == buf[0 : n]
+//@   ensures [after] err == nil ==> forall i int :: {r[i].ID} p < i && i < len(r) ==> r[i] == old(options[i - 1])
+//
+// ResetOptionsTo: the list becomes a copy of `in` (values copied back to back into buf).
+// On ErrTooSmall nothing may have changed (error atomicity) and n is the total size needed.
+//
+//@ spec rec sumLens(o Options, k int) int = ite(k <= 0, 0, sumLens(o, k-1) + len(o[k-1].Value))
+//
+//@ func (Options) ResetOptionsTo(buf []byte, in Options) (r Options, n int, err error)
+//@   requires sortedOpts(in) && len(in) <= 16384 && valuesDisjoint(buf, in) && distinctObjects(in, options)
+//@   modifies buf[0 : len(buf)], options[0 : cap(options)]
+//@   ensures [size] n == sumLens(in, len(in)) && 0 <= n
+//@   ensures [fits-iff] (err == nil) <==> sumLens(in, len(in)) <= len(buf)
+//@   ensures [err-kind] err != nil ==> err == ErrTooSmall && r == options
+//@   ensures [error-atomic] err != nil ==> (forall i int :: {options[i].ID} 0 <= i && i < len(options) ==> options[i] == old(options[i])) && bytesEqOld(buf, buf)
+//@   ensures [copied-ids] err == nil ==> len(r) == len(in) && (forall j int :: {r[j].ID} 0 <= j && j < len(in) ==> r[j].ID == in[j].ID)
+//@   ensures [copied-slices] err == nil ==> (forall j int :: {r[j].ID} 0 <= j && j < len(in) ==> r[j].Value == buf[sumLens(in, j) : sumLens(in, j + 1)])
+//@   ensures [copied-bytes] err == nil ==> (forall j int :: {r[j].ID} 0 <= j && j < len(in) ==> bytesEqOld(r[j].Value, in[j].Value))
+//@   loop 0:
+//@     invariant 0 <= #iter && #iter <= len(in) && needed == sumLens(in, #iter) && 0 <= needed && needed <= 281474976710656 * #iter
+//@     invariant forall j int :: {sumLens(in, j)} 0 <= j && j <= #iter ==> 0 <= sumLens(in, j) && sumLens(in, j) <= needed
+//@     decreases len(in) - #iter
+//@   loop 1:
+//@     modifies buf[0 : len(buf)], options[0 : cap(options)]
+//@     invariant 0 <= #iter && #iter <= len(in) && len(opts) == #iter && used == sumLens(in, #iter) && 0 <= used && used <= 281474976710656 * #iter
+//@     invariant buf == old(buf)[used : ] && used <= len(old(buf)) && needed == sumLens(in, len(in)) && needed <= len(old(buf))
+//@     invariant (opts[0:0] == options[0:0] && cap(opts) == cap(options)) || fresh(opts)
+//@     invariant forall j int :: {sumLens(in, j)} 0 <= j && j <= len(in) ==> 0 <= sumLens(in, j) && sumLens(in, j) <= needed
+//@     invariant [ids] forall j int :: {opts[j].ID} 0 <= j && j < #iter ==> opts[j].ID == in[j].ID
+//@     invariant [slices] forall j int :: {opts[j].ID} 0 <= j && j < #iter ==> opts[j].Value == old(buf)[sumLens(in, j) : sumLens(in, j + 1)] && 0 <= sumLens(in, j) && sumLens(in, j + 1) <= used
+//@     invariant [bytes] forall j int :: {opts[j].ID} 0 <= j && j < #iter ==> bytesEqOld(opts[j].Value, in[j].Value)
+//@     unfold sumLens(in, #iter + 1)
+//@     decreases len(in) - #iter
